@@ -8,7 +8,7 @@
 //! `Connection::version()` and the first bytes on the wire.
 //!
 //! line: `wire req <conn 11|2> <method> <scheme|-> <host|-> <port|-> <path|-> <query|-> <ver> <hdr=val>*`
-//! obs : `sent <method> <11|2> <scheme|-> <host|-> <port|-> <path|-> <query|-> <hdr=val>*|-` | `err-invalid-method` | `panic`
+//! obs : `sent <method> <11|2> <scheme|-> <host|-> <port|-> <path|-> <query|-> <hdr=val>*|-` | `err-invalid-method` | `err-protocol` | `panic`
 //! line: `wire proto <ver> <alpn 0|1>`      obs: `11` | `2` | `panic`
 use crate::rng::Rng;
 use hyperdriver::client::conn::protocol::auto::HttpConnectionBuilder;
@@ -178,6 +178,7 @@ async fn run_req(toks: &[&str]) -> String {
         match res {
             Ok(_) => {}
             Err(hyperdriver::client::Error::InvalidMethod(_)) => { peer.abort(); return "err-invalid-method".into(); }
+            Err(hyperdriver::client::Error::Protocol(_)) => { peer.abort(); return "err-protocol".into(); }
             Err(_) => {}
         }
         match tokio::time::timeout(std::time::Duration::from_secs(5), peer).await {
